@@ -266,7 +266,7 @@ FIXED_MODELS = [
     ([{'name': 'E', 'kind': 'obj', 'bases': [], 'extra': True, 'registered': True,
        'params': [{'name': 'a', 'type': 'str', 'required': True}, {'name': 'n', 'type': ('optional', 'int'), 'required': False}]}],
      [('class', 'E'), ('dict', 3, 'str', ('class', 'E'))]),
-    ([{'name': 'C', 'kind': 'enum', 'bases': [], 'members': ['a', 'true'], 'registered': True},
+    ([{'name': 'C', 'kind': 'enum', 'bases': [], 'members': ['a', 'true'], 'registered': True, 'enumvals': 'strempty'},
       {'name': 'H', 'kind': 'obj', 'bases': [], 'extra': False, 'registered': True,
        'params': [{'name': 'a', 'type': ('class', 'C'), 'required': True}, {'name': 'n', 'type': ('union', ['int', 'float']), 'required': False}]}],
      [('class', 'H'), ('class', 'C'), ('union', [('class', 'C'), 'int'])]),
@@ -347,7 +347,7 @@ def tie(ctx, model_ok=True):
                 continue
         # 2e. scalars of every kind at string-like / Enum / Path positions (alone, in a Union with bool, as dict keys)
         sl = [{'name': 'Ident', 'kind': 'str', 'bases': [], 'strbase': 'yatiml.String', 'registered': True},
-              {'name': 'Col', 'kind': 'enum', 'members': ['red', 'true'], 'bases': [], 'registered': True}]
+              {'name': 'Col', 'kind': 'enum', 'members': ['red', 'true'], 'bases': [], 'registered': True, 'enumvals': 'int'}]
         for leaf in (S('true', 'bool'), S('False', 'bool'), S('red'), S('7', 'int'), S('1.5', 'float'), S('~', 'null'), S('true')):
             for ty in (('class', 'Ident'), ('class', 'Col'), 'path', ('union', ['bool', ('class', 'Ident')]),
                        ('union', ['int', 'bool', ('class', 'Ident')]), ('optional', ('class', 'Ident'))):
